@@ -217,7 +217,94 @@ def run_poll(pid, tier, seed):
     shutil.rmtree(rundir, ignore_errors=True)
     return 0
 
+# ---------------------------------------------------------------------------------------
+# C15 / C19: finite tables enumerated by TLC, played on the real front ends / router+sender
+# ---------------------------------------------------------------------------------------
+def gen_vectors(module, outfile, rundir):
+    cfg = f'{rundir}/gen.cfg'
+    open(cfg, 'w').write(f'CONSTANT OutFile = "{outfile}"\n')
+    cmd = core.JAVA[:1] + ['-Xmx2g', '-Xss1g'] + core.JAVA[3:] + ['-metadir', f'{rundir}/gmd', '-config', cfg, module]
+    p = subprocess.run(cmd, cwd=core.SPEC, capture_output=True, text=True, timeout=600)
+    m = re.search(r'"VECTORS", (\d+)', p.stdout)
+    if not m or not os.path.exists(outfile):
+        print(p.stdout[-2000:], p.stderr[-1000:]); core.die(f'{module}: TLC could not enumerate the vector table')
+    shutil.rmtree(f'{rundir}/gmd', ignore_errors=True)
+    return int(m.group(1))
+
+def chunk_file(path, n, outdir):
+    os.makedirs(outdir, exist_ok=True)
+    lines = open(path).read().splitlines()
+    size = max(1, (len(lines) + n - 1) // n)
+    files = []
+    for i in range(0, len(lines), size):
+        p = f'{outdir}/c{i // size}.ndjson'
+        open(p, 'w').write('\n'.join(lines[i:i + size]) + '\n')
+        files.append(p)
+    return files, len(lines)
+
+def run_table(pid, tier, seed):
+    t0 = time.time()
+    rundir = f'{V}/run/{pid}-{tier}-{os.getpid()}'
+    shutil.rmtree(rundir, ignore_errors=True); os.makedirs(rundir)
+    if pid == 'C15':
+        harness, genmod, tracemod = 'frontx', 'RenderGen.tla', 'RenderTrace.tla'
+        invs = ['C15_NoDrop', 'C15_HttpRendering', 'C15_GrpcRendering', 'C15_SameRequest']
+    else:
+        harness, genmod, tracemod = 'routex', 'RouteGen.tla', 'RouteTrace.tla'
+        invs = ['C19_RouterFollowsTag', 'C19_SenderResolves']
+    core.build([harness])
+    vec = f'{rundir}/vectors.ndjson'
+    nvec = gen_vectors(genmod, vec, rundir)
+    obs = f'{rundir}/obs.ndjson'
+    cmds = [f'{V}/build/{harness} -vectors {vec} -out {obs}']
+    p = core.sh(cmds[0])
+    if p.returncode != 0:
+        print(p.stdout[-1500:], p.stderr[-1500:]); core.die(f'{harness} failed')
+    summary = p.stderr.strip().splitlines()[-1] if p.stderr.strip() else ''
+    expected = nvec * 2 if pid == 'C15' else nvec
+    if pid == 'C15':
+        pairs = f'{rundir}/pairs.ndjson'
+        cmds.append(f'{V}/build/frontx -pairs -out {pairs}')
+        p = core.sh(cmds[1])
+        if p.returncode != 0:
+            print(p.stdout[-1500:], p.stderr[-1500:]); core.die('frontx -pairs failed')
+        open(obs, 'a').write(open(pairs).read())
+        expected += sum(1 for _ in open(pairs))
+    files, nlines = chunk_file(obs, 8, f'{rundir}/chunks')
+    if nlines != expected:
+        core.die(f'{harness} played {nlines} cases, the table has {expected} (machinery)')
+    known = known_names()
+    with ThreadPoolExecutor(max_workers=8) as ex:
+        rs = list(ex.map(lambda a: tlc_trace(tracemod, a[1], invs, f'{rundir}/v{a[0]}', extra_consts='  Known = {' + ', '.join(f'"{k}"' for k in known) + '}\n'), enumerate(files)))
+    seen, viol = set(), None
+    for r in rs:
+        seen.update(r['seen'])
+        if r['error']:
+            print(r['error']); core.die('TLC could not validate the observations (machinery error)')
+        if r['violated'] and viol is None:
+            r['module'] = tracemod; viol = r
+    samples = [json.loads(l) for l in open(obs).read().splitlines()[:3]]
+    wall = time.time() - t0
+    cov = dict(states=nlines, transitions=nlines, traces_validated_against_impl=nlines, evaluations=nlines, distinct_nontrivial=nvec,
+               rule='the finite table is enumerated completely by TLC (one vector per case); each vector is played once per protocol against the real code; every vector is distinct and non-trivial by construction',
+               vectors=nvec, harness_summary=summary, samples=samples, exhaustive=True, known_findings_met=sorted(seen))
+    assumptions = ['the table in the TLA+ module is the statement of the property', 'real servers and real clients over the loopback interface; a stub kernel / recording plugins']
+    if viol:
+        dd = save_violation(pid, viol, '; '.join(cmds))
+        core.write_evidence(pid, tier, seed, 'model_checking', cov, wall, 1, assumptions)
+        print_known(pid, seen)
+        print(f'invariant {viol["violated"]} violated at observation {viol["line"]} of {viol["trace"]}')
+        print(f'VIOLATION property={pid} replay={dd}')
+        return 1
+    core.write_evidence(pid, tier, seed, 'model_checking', cov, wall, 0, assumptions)
+    print_known(pid, seen)
+    print(f'{pid} {tier}: all {nvec} vectors of the table played ({nlines} observations) and accepted by TLC; {wall:.0f}s')
+    shutil.rmtree(rundir, ignore_errors=True)
+    return 0
+
 def run(pid, tier, seed):
+    if pid in ('C15', 'C19'):
+        return run_table(pid, tier, seed)
     if pid == 'C18':
         return run_poll(pid, tier, seed)
     if pid in ('C16', 'C17'):
